@@ -257,13 +257,15 @@ def make_secop_error(name, text):
     :param text: the second item of a SECoP error report
     :return: the built instance of SECoPError
     """
+    errcls = SECoPError.name2class.get(name, InternalError)
     match = FRAPPY_ERROR.match(text)
     if match:
         clsname, errtext = match.groups()
-        errcls = SECoPError.clsname2class.get(clsname)
-        if errcls:
-            return errcls(errtext)
-    return SECoPError.name2class.get(name, InternalError)(text)
+        textcls = SECoPError.clsname2class.get(clsname)
+        # the class named in the text is only a refinement of the reported error class
+        if textcls and textcls.name == errcls.name:
+            return textcls(errtext)
+    return errcls(text)
 
 
 def secop_error(exc):
